@@ -1642,11 +1642,16 @@ func (g *c14Gen) deferFunc(name string) {
 			g.emitf("defer func() {")
 			g.emitf("\trecover()")
 			g.emitf("}()")
-		} else {
+		} else if r.bool() {
 			g.emitf("defer func() {")
 			g.emitf("\tif x := recover(); x != nil {")
 			g.emitf("\t\tnote(%d)", 300+r.intn(50))
 			g.emitf("\t}")
+			g.emitf("}()")
+		} else {
+			g.emitf("defer func() {")
+			g.emitf("\tnote(%d)", 350+r.intn(50))
+			g.emitf("\trecover()")
 			g.emitf("}()")
 		}
 		g.emitf("note(a %% 97)")
